@@ -223,7 +223,7 @@ func runCheck(prop, repo, verif, tier, work string, tmo int, verbose bool, updat
 		if i := strings.LastIndex(bn, "/"); i >= 0 {
 			kind = bn[i+1:]
 		}
-		if strings.HasPrefix(kind, "ensures.") || strings.HasPrefix(kind, "loop") || strings.HasPrefix(kind, "cover.") || strings.HasPrefix(kind, "frame.") || strings.HasPrefix(kind, "effects.") {
+		if strings.HasPrefix(kind, "ensures.") || strings.HasPrefix(kind, "unreachable.") || strings.HasPrefix(kind, "loop") || strings.HasPrefix(kind, "cover.") || strings.HasPrefix(kind, "frame.") || strings.HasPrefix(kind, "effects.") {
 			dup := false
 			for _, f := range failures {
 				if strings.HasPrefix(bn, strings.SplitN(f.name, "/", 3)[0]) && (strings.HasSuffix(f.name, "target_missing") || strings.HasSuffix(f.name, "out_of_subset")) {
